@@ -34,7 +34,13 @@ pub fn load(repo: &Path, extra: &Path) -> Vec<GrammarSrc> {
                 Err(_) => continue,
             };
             let rel = f.strip_prefix(base).unwrap_or(&f).to_string_lossy().to_string();
-            let stem = f.file_stem().unwrap().to_string_lossy().to_string();
+            // C16/C17/C18 quantify over grammar *texts*, not file names: the
+            // stem becomes an identifier in generated code, so store every
+            // grammar under a valid identifier (calculator-ambig -> calculator_ambig).
+            let mut stem: String = f.file_stem().unwrap().to_string_lossy().chars().map(|c| if c.is_ascii_alphanumeric() || c == '_' { c } else { '_' }).collect();
+            if stem.chars().next().map(|c| c.is_ascii_digit()).unwrap_or(true) {
+                stem.insert(0, 'g');
+            }
             v.push(GrammarSrc { id: format!("{prefix}{rel}"), stem, bytes });
         }
     }
